@@ -5,7 +5,9 @@ CFG = {
                    "GeoModel/RelateSpec.lean", "GeoModel/Valid.lean", "GeoModel/F64.lean",
                    "GeoProofs/Lemmas/C07PSquare.lean", "GeoProofs/Lemmas/C07PSegSeg.lean", "GeoProofs/Lemmas/C07PMin.lean",
                    "GeoProofs/Lemmas/C07PBase.lean", "GeoProofs/Lemmas/C07PParts.lean",
-                   "GeoProofs/Lemmas/C07PRings.lean", "GeoModel/TRANPrelude.lean", "GeoModel/Gen/DistGen.lean",
+                   "GeoProofs/Lemmas/C07PRings.lean", "GeoProofs/Lemmas/C07XSets.lean", "GeoProofs/Lemmas/C07XValid.lean",
+                   "GeoProofs/Lemmas/C07XNest.lean", "GeoProofs/Lemmas/C07XKern.lean", "GeoProofs/Lemmas/C07XPoly.lean",
+                   "GeoProofs/Lemmas/C07XDisp.lean", "GeoModel/TRANPrelude.lean", "GeoModel/Gen/DistGen.lean",
                    "GeoProofs/Lemmas/TRANDist.lean"],
     "translator": True,
     "rule": "ordered pairs (A, B) cycling through all 100 ordered pairs of the 10 geometry types (Geometry enum on both sides and the "
@@ -21,9 +23,11 @@ CFG = {
         "translator/rs2lean.py + rsexpr.py for the point-segment kernel (explicit choices: hypot = an abstract parameter constrained only by its square, "
         "abs = rabs, .into() on a Coord = identity, numbers exact)",
         "[A] rstar: RTree::nearest_neighbor returns a segment of minimal distance_2 (the model takes the minimum over all segments)",
-        "spec adequacy: the true distance of two disjoint geometries is attained between boundary/linework/point parts (brute force over all "
-        "part pairs; segment x segment by the closed-form minimum of a convex quadratic on the unit square: interior critical point or an edge), "
-        "and is 0 exactly when the independent DE-9IM specification relateSpec says they are not disjoint (S1, S2 of C01)",
+        "spec adequacy, what is left of it: the point set of a Polygon is PolyPts = {x | locate(polygon, x) != Outside} of the independent "
+        "specification (on a ring, or winding number != 0 about the shell and = 0 about every hole); that the distance to this set is attained "
+        "on the rings, and that the intersects short-circuits fire exactly when the point sets meet, is now PROVED for OGC-valid polygons "
+        "(Props/C07 section 8); the driver's brute-force oracle (minimum over all part pairs, relateSpec for 'not disjoint') stays as an "
+        "independent run-time cross-check",
         "hypot, one division and one multiplication are the only rounding operations on grid inputs (|x| <= 2^20, multiples of 1/16; checked per "
         "case by the driver): |impl^2 - d2| <= 16 * 2^-53 * d2",
     ],
@@ -55,15 +59,35 @@ MANIFEST = {
             "minimum over all vertex-segment pairs in both directions; all kernels are non-negative and panic-free on non-empty operands; the "
             "dispatch recursion is fuel-independent and equals the min folds of the macros, which lifts zero/minimum through Multi*/collections; "
             "Rect/Triangle/singleton Multi*/collection-of-one wrappers reduce to the wrapped operand. Polygon x Polygon symmetry is proved "
-            "unconditionally for polygons without holes (hence all Rect/Triangle pairs) and is _partial with holes (a witness shows the "
-            "hypothesis-free statement is false for an invalid operand); the Point x LineString zero-iff is _partial (finding K4). Each run compares the real code with the model "
+            "unconditionally for polygons without holes (hence all Rect/Triangle pairs); a witness shows the hypothesis-free statement is false "
+            "for an invalid operand; the Point x LineString zero-iff is _partial (finding K4). "
+            "AREAL OPERANDS (section 8, for OGC-valid polygons = polyValid of GeoModel/Valid.lean; Rect/Triangle are their to_polygon forms and need "
+            "no hypothesis): with PolyPts q = {x | the specification's locate does not put x outside q} (closed_polygon_iff: on a ring, or inside "
+            "the shell and outside every hole) - polyCoord/polyLine/lsPoly/polyPoly_intersects_iff: each intersects short-circuit (with its "
+            "bounding-box rejections and its one-sided look at the holes) holds exactly when the closed point sets share a point; "
+            "segment_into_polygon_crosses_ring and outside_point_nearest_to_boundary: a point outside a valid polygon is nearest to its boundary; "
+            "ptPoly_zero_iff_partial / ptPoly_dist_is_min_partial (K4 excluded on the hole rings, the only place the code applies the tolerance "
+            "test; ptPoly_hole_tolerance_witness inhabits the excluded class; full strength without holes), linePoly_dist_is_min, "
+            "lsPoly_dist_is_min (exterior branch and containment branch: a line string inside the shell of a polygon with holes and not meeting "
+            "it lies in one hole, whose ring separates it from the polygon; lsPoly_dist_is_hole_min is the former _partial without the "
+            "bounding-box hypothesis), polyPoly_dist_is_min (all three branches; two disjoint closed rings are nested or mutually exterior, "
+            "proved by a first-hit argument along a segment to a far point), polyPoly_symm_valid; baseD_is_true_min(_partial): all 36 ordered pairs "
+            "of single-part types return the minimum of |x-y|^2 over all pairs of points and 0 iff the operands share a point; "
+            "distG_is_true_min_areal(_partial): the same through the Multi*/GeometryCollection dispatch for geometries whose parts are Points, "
+            "Lines, LineStrings with a segment, valid Polygons, Rects, Triangles; baseD_symm_valid and distG_symm_valid: distance(a,b) = "
+            "distance(b,a) for all of them (the two dispatches fold min over the same part pairs). Used from C02/WIND: coordinate_position = "
+            "locate for valid polygons, windingE_const, the hole/shell and hole/hole clauses of polyValid, edgeJordan. Each run compares the real code with the model "
             "(zero <=> zero exactly, else 16 ulp relative on the square) and, independently, with a brute-force exact minimum over all part pairs "
             "combined with the DE-9IM specification for 'intersects (including containment)', and demands bit-identical results for exchanged "
             "operands, a second representation and enum-vs-concrete impls. Translator tie (TRAN, lineSegmentDistance_sq_eq_source_partial): "
             "line_segment_distance / point_line_euclidean_distance / line_euclidean_length / Line::{delta,dx,dy} are regenerated from geo-types on "
             "every run with f64::hypot as a parameter; whenever its square is x^2+y^2 at the three argument pairs the code evaluates, the square "
             "of the regenerated result is psd2 (the kernel all psd2_* theorems are about).",
-    "note": "Trusted: Lean kernel + audited axioms; the harness/generators (sampling); rstar nearest-neighbour [A]; spec adequacy. Open finding K4: "
-            "Point x LineString returns exactly 0 for a point 1-2 ulps off a slanted segment (tolerance test in line_string_contains_point), "
-            "off-grid inputs only; the model reproduces it with emulated f64 rounding.",
+    "note": "Trusted: Lean kernel + audited axioms; the harness/generators (sampling); rstar nearest-neighbour [A]; the definition of the point set "
+            "of a polygon by the specification's locate. Open finding K4: Point x LineString (and Point x Polygon through a hole ring) returns "
+            "exactly 0 for a point 1-2 ulps off a slanted segment (tolerance test in line_string_contains_point), off-grid inputs only; the "
+            "model reproduces it with emulated f64 rounding; the theorems carry it as the hypotheses tolOk / tolOkX / HolesTolOk. Not assumed "
+            "any more: 'distance to a disjoint polygon = distance to its rings' and the meaning of the polygon intersects calls (proved for "
+            "polyValid operands). Not covered by the theorems: empty members (K14a/b), invalid polygons (outside the property's domain; "
+            "polyPoly_symm_invalid_witness shows the statements fail there).",
 }
